@@ -8,13 +8,14 @@ Import ListNotations.
 Open Scope Z_scope.
 
 (* What enumerate needs from execute_query when it runs on the PREPROCESSED scratch (proved
-   separately; here a hypothesis): the returned count is the number of models containing A, the
-   temps of all nodes that are not true nodes are the counts under A, the scratch stays clean. *)
+   separately; here a hypothesis): the returned count is the number of models containing A; when
+   it is positive the temps of all nodes that are not true nodes are the counts under A (when the
+   core shortcut answers 0 the temps are not recomputed, and not used); the scratch stays clean. *)
 Definition exec_spec (C : circuit) (n : nat) (A : cfg) : Prop :=
   forall s s1 s2 r,
     Clean C s -> preprocess (build C n) A s = Some s1 ->
     execute_query (build C n) (sort_abs A) s1 = (s2, r) ->
-    r = MCA C n A /\ temps_ok (sort_abs A) C (temps s2) /\ Clean C s2.
+    r = MCA C n A /\ (0 < r -> temps_ok (sort_abs A) C (temps s2)) /\ Clean C s2.
 
 Definition out_of_range (n : nat) (A : cfg) : Prop := exists l, In l A /\ Z.of_nat n < Z.abs l.
 
@@ -77,16 +78,18 @@ Lemma enumerate_unfold A amount cur s :
      then (s2, cur_set cur (sort_abs A) (stop mod c),
            Some (map sort_abs (enumerate_node d (temps s2) (length C) p stop (root C))))
      else (s2, cur, None)) /\
-    temps_ok (sort_abs A) C (temps s2).
+    (0 < c -> temps_ok (sort_abs A) C (temps s2)).
 Proof.
   intros HA Hex Hcl Ham c p stop.
   destruct (preprocess_Some C n A s HA) as [s1 Hs1].
   destruct (execute_query d (sort_abs A) s1) as [s2 r] eqn:Hq.
   destruct (Hex s s1 s2 r Hcl Hs1 Hq) as (Hr & Hts & Hcl2).
+  fold c in Hr. subst r.
   exists s2. split; [exact Hcl2|]. split; [|exact Hts].
   unfold enumerate. replace (amount =? 0) with false by (symmetry; now apply Z.eqb_neq).
-  unfold d in *. rewrite Hs1, Hq. fold c in Hr. subst r.
+  unfold d in *. rewrite Hs1, Hq.
   destruct (0 <? c) eqn:Ec; [|reflexivity].
+  apply Z.ltb_lt in Ec. specialize (Hts Ec).
   assert (Hrt : rt (build C n) s2 = c).
   { unfold rt, rootn. cbn [circ build]. fold (root C).
     rewrite Hts; [|apply root_lt; apply HWF|now apply (root_not_true C n)].
@@ -108,7 +111,7 @@ Theorem enumerate_page A amount cur s :
 Proof.
   intros HA Hex Hcl Ham c p stop Hc Hp.
   destruct (enumerate_unfold A amount cur s HA Hex Hcl ltac:(lia)) as (s2 & Hcl2 & He & Hts).
-  exists s2. split; [exact Hcl2|]. rewrite He. fold c.
+  exists s2. split; [exact Hcl2|]. rewrite He. fold c. specialize (Hts Hc).
   replace (0 <? c) with true by (symmetry; now apply Z.ltb_lt).
   fold p. fold stop. f_equal. f_equal. f_equal.
   assert (HP : Permutation (sort_abs A) A) by apply sort_abs_perm.
@@ -491,7 +494,7 @@ Proof.
   split; [|split].
   - unfold rc, rootn. cbn [cnts circ build]. fold (root C).
     rewrite <- root_count_nth, (count_is_MC C n HWF). unfold MC, MCA. now rewrite ModelsA_nil.
-  - intros i Hi Hnt. cbn [temps sort_abs fold_right]. change (countsA [] C) with (counts C).
+  - intros _ i Hi Hnt. cbn [temps sort_abs fold_right]. change (countsA [] C) with (counts C).
     apply hide_true_nth. intros Hin. apply Hnt.
     assert (Ht : is_true_node (build C n) i = true).
     { unfold is_true_node. apply existsb_exists. exists i. split; [exact Hin|apply Nat.eqb_refl]. }
